@@ -64,6 +64,8 @@ def run(res, programs, tier):
     for P in programs:
         if "dashu_int" in P.units:
             _r20_5(res, P, P.name)
+        if "dashu_float" in P.units and P.role == "main":
+            _r20_3b(res, P, P.name)
     if not done:
         res.anchor("R20.1", "-", "facts of crate dashu_macros")
 
@@ -292,6 +294,46 @@ def _r20_4(res, P, cfgname):
             else:
                 res.fail("R20.4", cfgname, key, "conversion to %s in %s is not guarded by `bit_len() <= %d` (thresholds seen: %s): the const generator path would panic or truncate" % (g[1], f["p"], bits, seen_k), span_loc(t["sp"]))
     res.floor("R20.4", cfgname, n, 7, "threshold-guarded conversions")
+
+
+def _r20_3b(res, P, cfgname):
+    """R20.3b: the const constructor the float macros expand to (`from_parts_const(sign, u, exp, Some(prec))`)
+    must hand the precision on: every value it returns is data-dependent on `min_precision`."""
+    res.rule("R20.3b", "FBig::from_parts_const: every returned value depends on the min_precision argument (the precision parsed by fbig!/dbig! is not dropped inside the constructor)")
+    path = "dashu_float::fbig::FBig::<R, B>::from_parts_const"
+    f = next((g for g in P.fns("dashu_float") if g["p"] == path), None)
+    if f is None:
+        res.anchor("R20.3b", cfgname, "fn " + path)
+        return
+    b = f["mir"]
+    names = [v.get("name") for v in b.get("vars", [])] if isinstance(b.get("vars"), list) else []
+    ins = f.get("inputs", [])
+    arg = next((i + 1 for i, t in enumerate(ins) if "Option<usize>" in t), None)
+    if arg is None:
+        res.anchor("R20.3b", cfgname, "Option<usize> parameter of from_parts_const")
+        return
+    du = mir.defuse_of(b)
+    cfg = mir.cfg_of(b)
+    S = sym.Sym(f)
+    n = 0
+    for (bb, idx, node) in du.defs.get(0, []):
+        if bb not in cfg.reachable():
+            continue
+        n += 1
+        start = []
+        if idx == "t":
+            mir.walk_places(node["a"], lambda p: start.append(p["l"]))
+            term = mir.callee_path(node)
+        else:
+            mir.walk_places(node["rv"], lambda p: start.append(p["l"]))
+            term = sym.term_str(S.rvalue(node["rv"]), 80)
+        seen, _ = mir.backward_slice(b, start)
+        key = "from_parts_const returns " + term.rsplit("::", 1)[-1].split("(")[0]
+        if arg in seen:
+            res.ok("R20.3b", cfgname, key, sample=dict(function=path, returned=term, depends_on="min_precision (arg %d)" % arg))
+        else:
+            res.fail("R20.3b", cfgname, key, "FBig::from_parts_const returns `%s` without using min_precision: fbig!/dbig! of a literal whose significand is zero lose the parsed precision (dbig!(0.000).precision() == 0, DBig::from_str(\"0.000\") has precision 4)" % term, span_loc(node.get("sp", f["sp"])))
+    res.floor("R20.3b", cfgname, n, 2, "return-value definitions of from_parts_const")
 
 
 def _r20_5(res, P, cfgname):
